@@ -2390,7 +2390,13 @@ def unit_todo(eng, tier, prop):
     return u.result()
 
 
+def _generated_forwarding(eng, tier, prop, root=None):
+    from . import genunits
+    return genunits.unit_generated_forwarding(eng, tier, prop, root=root)
+
+
 UNITS = {
+    "generated_forwarding": _generated_forwarding,
     "output_containers": unit_output_containers,
     "mirror_wiring": unit_mirror_wiring,
     "delegators": unit_delegators,
@@ -2424,7 +2430,7 @@ def run(prop, tier, seed, root, names, units, replays):
     for n in names:
         fn = UNITS[n]
         try:
-            r = fn(eng, tier, prop, root=root) if n == "mirror_wiring" else fn(eng, tier, prop)
+            r = fn(eng, tier, prop, root=root) if n in ("mirror_wiring", "generated_forwarding") else fn(eng, tier, prop)
         except (KeyError, Unsupported) as e:
             r = {"engine": "mirsym", "name": n, "status": "error", "note": f"stale query (source changed?): {e!r}", "obligations": 0}
         except Exception as e:
